@@ -54,6 +54,10 @@ STRUCTS = {
                    dict(motif='chiral4', pose='p2', at=(13.0, 4.5, 4.0))], 'chiral4'),
     # two copies whose orientations differ by 0.13 degrees (a quaternion rounded to two decimals does not tell them apart)
     'S32': ('o1', [dict(motif='chiral4', pose='p3', at=(2.0, 3.0, 4.0)), dict(motif='chiral4', pose='p3t', at=(6.5, 7.0, 8.0))], 'chiral4'),
+    # occurrences that contain an atom together with its own periodic image (pattern as long as the cell edge); used by C02 / C03 only:
+    # C01 speaks of DISTINCT atoms per match, which such a match cannot satisfy
+    'S33': ('chain4', [dict(kind='raw', el=['Cu', 'O', 'He'], pos=[(0.5, 5.0, 5.0), (2.5, 5.3, 5.0), (1.0, 1.0, 8.0)])], 'CuOCu'),
+    'S34': ('chain4t', [dict(kind='raw', el=['C', 'C', 'He'], pos=[(0.5, 5.0, 5.0), (2.5, 5.0, 5.0), (1.0, 1.0, 8.0)])], 'CCC-chain'),
     # orthogonal cell whose vectors are not axis-aligned
     'S22': ('orot', [dict(motif='chiral4', pose='p1', at=(1.0, 6.0, 4.0)), dict(motif='chiral4', pose='p4', at=(-3.0, 9.0, 9.0)),
                      dict(motif='chiral4', pose='p2', at=(-1.0, 3.0, 7.0), kind='mirror')], 'chiral4'),
@@ -76,7 +80,7 @@ STRUCTS = {
     'S27b': ('o2', [dict(kind='raw', el=['H', 'C', 'F', 'H', 'Cl'], pos=[(-0.4, 0.9, -0.45), (0, 0, 0), (1.35, 0, 0), (-0.4, 0.9, 0.45), (-0.7, -1.5, 0.0)], pose='p3', at=(3.0, 6.0, 4.0))], 'CFH'),
     'S27c': ('t1', [dict(kind='raw', el=['H', 'H', 'C', 'F', 'Cl'], pos=[(-0.4, 0.9, -0.45), (-0.4, 0.9, 0.45), (0, 0, 0), (1.35, 0, 0), (-0.7, -1.5, 0.0)], pose='rz90', at=(3.0, 4.0, 3.0))], 'CFH'),
 }
-EXPECTED = {'S27': [(1, 2, 0), (1, 2, 3)], 'S27b': [(1, 2, 0), (1, 2, 3)], 'S27c': [(2, 3, 0), (2, 3, 1)]}
+EXPECTED = {'S33': [(0, 1, 0)], 'S34': [(0, 1, 0), (1, 0, 1)], 'S27': [(1, 2, 0), (1, 2, 3)], 'S27b': [(1, 2, 0), (1, 2, 3)], 'S27c': [(2, 3, 0), (2, 3, 1)]}
 PERMS = {'S25': [0, 5, 1, 6, 2, 7, 3, 8, 4, 9]}
 PAT_POSE = {'S14': 'rz90', 'S15': 'ry90', 'S20': 'diag111', 'S21': 'diag1-11'}
 # stretch kind with factor 0.01 on a 1.3 A motif = 0.013 A: well inside the tolerance -> counts as an occurrence
@@ -107,6 +111,9 @@ def run_find(ctx, p):
     if p.get('pat_translate') == 'sym':
         ptrans = [ctx.real(f"pt{c}", -20, 20) for c in range(3)]
     pat = make_pattern(ctx, motif, rigid=p.get('pat_pose'), translate=ptrans)
+    if p.get('pat_elements'):
+        # same geometry, other elements (one of them absent from the structure): nothing is an occurrence
+        pat = make_pattern(ctx, None, elements=list(p['pat_elements']), positions=np.array(MOTIFS[motif][1], dtype=float), rigid=p.get('pat_pose'), translate=ptrans)
     pat0 = np.array(MOTIFS[motif][1], dtype=float)
     if p.get('pat_pose'):
         pat0 = pose(p['pat_pose']).apply(pat0)
@@ -146,6 +153,8 @@ def run_find(ctx, p):
         expected = [(inv[i],) for i, e in enumerate(els) if e == 'H']
     if p['struct'] in EXPECTED:
         expected = [tuple(inv[i] for i in g) for g in EXPECTED[p['struct']]]
+    if p.get('pat_elements'):
+        expected = []
     return dict(st=st, pat=pat, pat0=pat0, idx=idx, mpos=mpos, quats=quats, expected=expected, atol=atol, cell=cell,
                 els=[els[i] for i in order], motif=motif, groups=groups, inv=inv)
 
@@ -205,6 +214,10 @@ def std_instances(tier, seed, families=('face',)):
     for sname in ('S30', 'S31'):
         add(f"find:{sname}:axis1:strongly-tilted-cell", struct=sname, axes=[1], other=(0.15, 0, 0.4), cost=40)
     add("find:S30:axis0:strongly-tilted-cell", struct='S30', axes=[0], other=(0, 0.55, 0.8), cost=40)
+    # a pattern element that does not occur in the structure at all (and sorts before / after the ones that do): no match
+    add("find:S5:axis0:pattern-element-absent-from-structure:B", struct='S5', axes=[0], other=(0, 0.4, 0.7), pat_elements=['B', 'H'], cost=10)
+    add("find:S3:axis1:pattern-element-absent-from-structure:F", struct='S3', axes=[1], other=(0.2, 0, 0.7), pat_elements=['C', 'F', 'O'], cost=10)
+    add("find:S1:axis2:pattern-element-absent-from-structure:Zr", struct='S1', axes=[2], other=(0.2, 0.6, 0), pat_elements=['C', 'H', 'N', 'Zr'], cost=10)
     # histories: an earlier search must not influence a later one (same object edited in place / another structure with the same coordinates)
     add("find:S1:axis0:history:moved-in-place", struct='S1', axes=[0], other=(0, 0.3, 0.6), history='moved-in-place', cost=40)
     add("find:S2:axis2:history:moved-in-place", struct='S2', axes=[2], other=(0.2, 0.3, 0), history='moved-in-place', cost=40)
